@@ -19,7 +19,15 @@ import sys
 
 STATE = {"blocks": {"generators": 0, "blocks_compared": 0, "tails_checked": 0,
                     "stopped_judging_mutated": 0, "violations": []},
-         "mkd": {"ops": 0, "instances": 0, "violations": []}}
+         "mkd": {"ops": 0, "instances": 0, "violations": []},
+         "poly": {"constructed": 0, "coefficients_checked": 0,
+                  "eq_true_hash_checked": 0, "eq_ne_checked": 0,
+                  "products_evaluated": 0, "sums_evaluated": 0,
+                  "skipped_not_exact": 0, "monitor_errors": 0,
+                  "violations": []},
+         "stream": {"take_vs_peek": 0, "peek_twice": 0, "skipped": 0,
+                    "monitor_errors": 0, "violations": []},
+         "filt": {"eq_ne_checked": 0, "monitor_errors": 0, "violations": []}}
 
 
 def _same(a, b):
@@ -167,6 +175,211 @@ def install_mkd_monitor(core):
   MKD.__delitem__ = __delitem__
 
 
+def _vio(st, **kw):
+  if len(st["violations"]) < 5:
+    st["violations"].append({k: (v if isinstance(v, (int, bool)) else
+                                 repr(v)[:300]) for k, v in kw.items()})
+
+
+def install_poly_monitor(poly_mod):
+  """C07 invariants at hooks on the real Poly class while the test-suite (and
+  all the filter code built on Poly) runs:
+  * after every construction no stored numeric coefficient is zero;
+  * whenever == answers True the hashes of (copies of) both sides agree and
+    != answers False - copies, because hashing freezes a Poly;
+  * for exact-rational operands (p*q)(v) == p(v)*q(v) and (p+q)(v) ==
+    p(v)+q(v) at a fixed rational point."""
+  from fractions import Fraction
+  import numbers
+  st = STATE["poly"]
+  Poly = poly_mod.Poly
+  Stream = poly_mod.Stream
+  real_init, real_eq = Poly.__init__, Poly.__eq__
+  real_mul, real_add = Poly.__mul__, Poly.__add__
+  busy = [0]
+  V = Fraction(3, 7)
+
+  def exact(p):
+    if not (type(p.zero) in (int, float) and p.zero == 0):
+      return False
+    for k, c in p.terms():
+      if type(k) is not int or type(c) not in (int, Fraction) or abs(k) > 40:
+        return False
+    return True
+
+  def __init__(self, *a, **kw):
+    real_init(self, *a, **kw)
+    if busy[0]:
+      return
+    busy[0] += 1
+    try:
+      st["constructed"] += 1
+      z = self.zero
+      if isinstance(z, numbers.Number) and not isinstance(z, bool) and z == 0:
+        for k, c in self.terms():
+          if isinstance(c, numbers.Number) and not isinstance(c, Stream):
+            st["coefficients_checked"] += 1
+            if c == 0:
+              _vio(st, problem="zero coefficient stored", power=k, coeff=c,
+                   poly=dict(self.terms()))
+    except Exception:  # noqa
+      st["monitor_errors"] += 1
+    finally:
+      busy[0] -= 1
+
+  def __eq__(self, other):
+    res = real_eq(self, other)
+    if busy[0] or not isinstance(other, Poly):
+      return res
+    busy[0] += 1
+    try:
+      ne = Poly.__ne__(self, other)
+      st["eq_ne_checked"] += 1
+      if (res is True and ne is not False) or (res is False and
+                                               ne is not True):
+        _vio(st, problem="== and != disagree", eq=res, ne=ne,
+             a=dict(self.terms()), b=dict(other.terms()))
+      if res is True:
+        try:
+          ha, hb = hash(Poly(self)), hash(Poly(other))
+        except TypeError:
+          ha = hb = None
+        if ha is not None:
+          st["eq_true_hash_checked"] += 1
+          if ha != hb:
+            _vio(st, problem="p == q but hash(p) != hash(q)",
+                 a=dict(self.terms()), b=dict(other.terms()))
+    except Exception:  # noqa
+      st["monitor_errors"] += 1
+    finally:
+      busy[0] -= 1
+    return res
+
+  def homo(name, real, comb, counter):
+    def op(self, other):
+      res = real(self, other)
+      if busy[0] or not isinstance(other, Poly) or not isinstance(res, Poly):
+        return res
+      busy[0] += 1
+      try:
+        if exact(self) and exact(other) and exact(res):
+          st[counter] += 1
+          got, want = res(V), comb(self(V), other(V))
+          # an empty Poly evaluates to its zero, the float 0.0 by default
+          ok = got == want if type(got) is not float and \
+            type(want) is not float else abs(got - want) <= 1e-9 * max(
+              1, abs(want))
+          if not ok:
+            _vio(st, problem="(p %s q)(v) != p(v) %s q(v)" % (name, name),
+                 p=dict(self.terms()), q=dict(other.terms()),
+                 r=dict(res.terms()), got=got, want=want)
+        else:
+          st["skipped_not_exact"] += 1
+      except Exception:  # noqa
+        st["monitor_errors"] += 1
+      finally:
+        busy[0] -= 1
+      return res
+    op.__name__ = real.__name__
+    return op
+  Poly.__init__ = __init__
+  Poly.__eq__ = __eq__
+  Poly.__hash__ = Poly.__hash__       # defining __eq__ must not drop the hash
+  Poly.__mul__ = homo("*", real_mul, lambda a, b: a * b, "products_evaluated")
+  Poly.__add__ = homo("+", real_add, lambda a, b: a + b, "sums_evaluated")
+
+
+def install_stream_monitor(stream_mod):
+  """C03 at a hook: take(n) must return what peek(n) showed just before (and
+  peek must remove nothing: two peeks agree).  Only for small integer n, so
+  nothing endless is drained; peeking ahead is not observable through a
+  Stream (the items are put back in front)."""
+  st = STATE["stream"]
+  Stream = stream_mod.Stream
+  real_take, real_peek = Stream.take, Stream.peek
+  busy = [0]
+
+  def take(self, n=None, constructor=list):
+    if busy[0] or type(self) is not Stream or \
+       constructor not in (list, tuple) or \
+       not (n is None or (type(n) is int and 0 <= n <= 64)):
+      if not busy[0]:
+        st["skipped"] += 1
+      return real_take(self, n, constructor)
+    busy[0] += 1
+    try:
+      try:
+        first = ("ok", real_peek(self, n))
+      except StopIteration:
+        first = ("stop", None)
+      # any other exception came from the source while reading the very
+      # items take() would read: it is take()'s outcome too (a generator that
+      # raised is finished, so asking again would change the behaviour)
+      try:
+        second = ("ok", real_peek(self, n)) if first and first[0] == "ok" \
+                 else None
+      except Exception:  # noqa
+        second = None
+    finally:
+      busy[0] -= 1
+    try:
+      res = real_take(self, n, constructor)
+    except StopIteration:
+      if first is not None and first[0] == "ok":
+        _vio(st, problem="take raised StopIteration after peek returned",
+             n=n, peeked=first[1])
+      raise
+    try:
+      if first is not None and first[0] == "ok":
+        st["take_vs_peek"] += 1
+        a = first[1] if n is not None else [first[1]]
+        b = list(res) if n is not None else [res]
+        if not _same(list(a), b):
+          _vio(st, problem="take(n) differs from the preceding peek(n)",
+               n=n, peeked=first[1], taken=res)
+        if second is not None:
+          st["peek_twice"] += 1
+          c = second[1] if n is not None else [second[1]]
+          if not _same(list(a), list(c)):
+            _vio(st, problem="two successive peek(n) differ", n=n,
+                 first=first[1], second=second[1])
+      elif first is not None and first[0] == "stop" and n is None:
+        _vio(st, problem="peek() raised StopIteration but take() returned",
+             taken=res)
+    except Exception:  # noqa
+      st["monitor_errors"] += 1
+    return res
+  take.__doc__ = real_take.__doc__
+  Stream.take = take
+
+
+def install_filter_monitor(filt_mod):
+  """C05: == and != of filters never both hold / both fail."""
+  st = STATE["filt"]
+  LF = filt_mod.LinearFilter
+  real_eq = LF.__eq__
+  busy = [0]
+
+  def __eq__(self, other):
+    res = real_eq(self, other)
+    if busy[0] or not isinstance(other, LF):
+      return res
+    busy[0] += 1
+    try:
+      ne = LF.__ne__(self, other)
+      st["eq_ne_checked"] += 1
+      if isinstance(res, bool) and isinstance(ne, bool) and res == ne:
+        _vio(st, problem="== and != agree", eq=res, ne=ne)
+    except Exception:  # noqa
+      st["monitor_errors"] += 1
+    finally:
+      busy[0] -= 1
+    return res
+  hsh = LF.__hash__
+  LF.__eq__ = __eq__
+  LF.__hash__ = hsh
+
+
 def pytest_configure(config):
   repo = os.environ.get("VERIF_REPO", "/repo")
   import audiolazy
@@ -180,6 +393,10 @@ def pytest_configure(config):
        getattr(mod, "blocks", None) is real:
       setattr(mod, "blocks", mon)
   install_mkd_monitor(lazy_core)
+  from audiolazy import lazy_poly, lazy_stream, lazy_filters
+  install_poly_monitor(lazy_poly)
+  install_stream_monitor(lazy_stream)
+  install_filter_monitor(lazy_filters)
 
 
 def pytest_sessionfinish(session, exitstatus):
